@@ -165,4 +165,19 @@ Lemma step_core_tick y d ch : step_core y (LTick d) ch =
   let '(y2, _, e2) := fire_timers 64 y1 SB ch1 in
   (y2, e1 ++ e2 ++ [ERet R_OK 0 []]).
 Proof. reflexivity. Qed.
+Lemma step_core_break y c ch : step_core y (LBreak c) ch =
+  match nthN (N.to_nat c) (sy_conns y) with
+  | None => (y, [ERet R_ERR 0 []])
+  | Some cn => (set_conns y (setN (N.to_nat c) (mkC [] [] (c_clA cn) (c_clB cn) true) (sy_conns y)), [ERet R_OK 0 []])
+  end.
+Proof. reflexivity. Qed.
+Lemma step_core_notice y s c ch : step_core y (LNotice s c) ch =
+  match nthN (N.to_nat c) (sy_conns y) with
+  | None => (y, [ERet R_ERR 0 []])
+  | Some cn =>
+      if c_failed cn && negb (conn_closed_end cn s) then
+        let '(y1, evs) := deplex_error y s c in (y1, evs ++ [ERet R_OK 0 []])
+      else (y, [ERet R_ERR 1 []])
+  end.
+Proof. reflexivity. Qed.
 Global Opaque step_core.
